@@ -734,6 +734,28 @@ pub fn field_tampers(rec: &Rec, other_key: &RefKey, other_rec: &Rec) -> Vec<(&'s
     ] {
         out.push((cls, assemble_with_sig(&s, &items)));
     }
+    // signature with one byte dropped at the front of r / of s, or left-padded (interesting when that byte is 0)
+    if sg.len() == 64 {
+        out.push(("sig-leading-byte-dropped", assemble_with_sig(&sg[1..], &items)));
+        out.push(("sig-leading-byte-dropped", assemble_with_sig(&[&sg[..32], &sg[33..]].concat(), &items)));
+        out.push(("sig-left-padded", assemble_with_sig(&[&[0u8][..], &sg[..]].concat(), &items)));
+        // two bytes changed by the same mask (differences that cancel under xor-folding compares)
+        for (i, j, m) in [(3usize, 40usize, 0x5au8), (0, 63, 0xff), (31, 32, 0x01), (10, 11, 0x80)] {
+            let mut t = sg.clone();
+            t[i] ^= m;
+            t[j] ^= m;
+            out.push(("sig-two-bytes-xor", assemble_with_sig(&t, &items)));
+        }
+    }
+    if rec.key.scheme == Scheme::Secp {
+        // the negated key (02 <-> 03) BEFORE any other key is shown to the decoder
+        let mut p = rec.key.pub_bytes();
+        p[0] ^= 1;
+        let mut r2 = rec.clone();
+        r2.map.insert(b"secp256k1".to_vec(), Item::S(p));
+        out.push(("pubkey-negated", assemble_with_sig(&sg, &r2.items())));
+        out.push(("pubkey-negated", assemble(&rec.key, &r2.items(), &r2.items())));
+    }
     // public key swapped for another valid key, signature untouched
     {
         let mut r2 = rec.clone();
@@ -741,14 +763,6 @@ pub fn field_tampers(rec: &Rec, other_key: &RefKey, other_rec: &Rec) -> Vec<(&'s
         out.push(("pubkey-swapped", assemble_with_sig(&sg, &r2.items())));
         // ... and the signature re-made by the *old* key over the new content
         out.push(("pubkey-swapped", assemble(&rec.key, &r2.items(), &r2.items())));
-    }
-    if rec.key.scheme == Scheme::Secp {
-        let mut p = rec.key.pub_bytes();
-        p[0] ^= 1;
-        let mut r2 = rec.clone();
-        r2.map.insert(b"secp256k1".to_vec(), Item::S(p));
-        out.push(("pubkey-negated", assemble_with_sig(&sg, &r2.items())));
-        out.push(("pubkey-negated", assemble(&rec.key, &r2.items(), &r2.items())));
     }
     out
 }
